@@ -424,6 +424,22 @@ def wire(c):
 
 
 # ---------------------------------------------------------------------------------------------
+def model_batch_par(reqs, workers=None):
+    """the compiled model on all requests; the driver is a pure line filter, so the batch is dealt round-robin to a few
+    driver processes (n*n sorts of 53-bit rationals cost about a second each)"""
+    import os
+    from concurrent.futures import ThreadPoolExecutor
+    workers = workers or max(1, min(8, (os.cpu_count() or 2) // 2, len(reqs) // 8 or 1))
+    chunks = [list(range(w, len(reqs), workers)) for w in range(workers)]
+    with ThreadPoolExecutor(workers) as ex:
+        outs = list(ex.map(lambda ix: core.model_batch("C07", [reqs[i] for i in ix]), chunks))
+    res = [None] * len(reqs)
+    for ix, out in zip(chunks, outs):
+        for i, o in zip(ix, out):
+            res[i] = o
+    return res
+
+
 def divisor_has_zero(op, r):
     if op != "div":
         return False
@@ -456,12 +472,11 @@ def check_result(ctx, rng, form, dep, op, l, r, impl, feat, case):
     # both operands are p-box-like
     res = ("ok", impl[2], impl[3])
     if dep in ("p", "o", "i"):
-        from .c03 import check as c03check
-        w = c03check(dep, op, xb, yb, res)
+        w = random_set_check(dep, op, xb, yb, res)
         ctx.bump("oracle:random-set")
         if w is not None:
             ctx.fail({**feat, "check": "random-set-" + w["why"], "symptom": "wrong-bounds"}, {**case, "witness": w},
-                     f"{kind_of(l)} {op} {kind_of(r)} under {dep}: differs from the random-set combination of the converted operands at step {w.get('step')}")
+                     f"{kind_of(l)} {op} {kind_of(r)} under {dep}: differs from the random-set combination of the converted operands at step {w.get('step')}: {w}")
     elif rng.random() < 0.5:
         from .c02 import check_validity
         w = check_validity(rng, op, xb, yb, res, exhaustive=False, nsel=0, ncoup=1)
@@ -469,6 +484,44 @@ def check_result(ctx, rng, form, dep, op, l, r, impl, feat, case):
         if w is not None:
             ctx.fail({**feat, "check": "frechet-validity", "symptom": "outcome-outside-step"}, {**case, "witness": w},
                      f"{kind_of(l)} {op} {kind_of(r)} under f: an order statistic of the outcomes falls outside result step {w['rank']}")
+
+
+def random_set_check(dep, op, xb, yb, res):
+    """random-set meaning of perfect / opposite / independent on the converted operands: focal pairs (k,k), (k,n-1-k) or
+    all n*n pairs combined by interval arithmetic (four corners, numpy binary64 — a few ulp, inside the tolerance), endpoints
+    sorted; p/o: equal to the result bounds; i: result step k inside the k-th block of n sorted endpoints."""
+    l1, r1, l2, r2 = (np.array(v, dtype=float) for v in (xb[0], xb[1], yb[0], yb[1]))
+    n = len(l1)
+    if op == "div" and np.any((l2 <= 0) & (r2 >= 0)):
+        return None
+    f = {"add": np.add, "sub": np.subtract, "mul": np.multiply, "div": np.divide}[op]
+    if dep == "o":
+        l2, r2 = l2[::-1], r2[::-1]
+    if dep == "i":
+        a, b, c, d = l1[:, None], r1[:, None], l2[None, :], r2[None, :]
+    else:
+        a, b, c, d = l1, r1, l2, r2
+    cs = [f(a, c), f(a, d), f(b, c), f(b, d)]
+    lo = np.sort(np.minimum.reduce(cs).ravel()); hi = np.sort(np.maximum.reduce(cs).ravel())
+    L, R = np.array(res[1], dtype=float), np.array(res[2], dtype=float)
+    if len(L) != n or len(R) != n:
+        return {"why": "length", "len": len(L)}
+    scale = max(1.0, float(np.max(np.abs(lo))), float(np.max(np.abs(hi))))
+    tol = 4 * 24 * core.ulp(scale)
+    if dep in ("p", "o"):
+        for nm, got, ref in (("left", L, lo), ("right", R, hi)):
+            bad = np.nonzero(np.abs(got - ref) > tol)[0]
+            if len(bad):
+                k = int(bad[0])
+                return {"why": nm, "step": k, "reported": float(got[k]), "random_set": float(ref[k])}
+        return None
+    for nm, got, ref in (("left-block", L, lo), ("right-block", R, hi)):
+        blk = ref.reshape(n, n)
+        bad = np.nonzero((got < blk[:, 0] - tol) | (got > blk[:, -1] + tol))[0]
+        if len(bad):
+            k = int(bad[0])
+            return {"why": nm, "step": k, "reported": float(got[k]), "block": [float(blk[k, 0]), float(blk[k, -1])]}
+    return None
 
 
 def run(ctx: core.Check):
@@ -485,7 +538,7 @@ def run(ctx: core.Check):
                        "division by an operand containing zero is outside the property (tie on the error kind / returned bounds only)"]
     ctx.lean_stage(["Pun.Lemmas.Hier", "Pun.Props.C07"])
     cases = gen_cases(ctx)
-    replies = core.model_batch("C07", [wire(c) for c in cases])
+    replies = model_batch_par([wire(c) for c in cases])
     rng = ctx.rng
     for c, rep in zip(cases, replies):
         form, dep, op, l, r = c
